@@ -146,11 +146,25 @@ func v16patch() {
 	})
 }
 
+func (sc *v16Scn) setStat(k string, v int64) {
+	sc.mu.Lock()
+	sc.stats[k] = v
+	sc.mu.Unlock()
+}
+func (sc *v16Scn) setNote(k, v string) {
+	sc.mu.Lock()
+	sc.notes[k] = v
+	sc.mu.Unlock()
+}
+
 func (sc *v16Scn) ms() int64 { return int64(time.Since(sc.t0) / time.Millisecond) }
 
 func (sc *v16Scn) fail(sig, what string) {
+	sc.mu.Lock()
 	sc.oracle = append(sc.oracle, sig+" | "+what)
+	sc.mu.Unlock()
 }
+func (sc *v16Scn) failLocked(sig, what string) { sc.oracle = append(sc.oracle, sig+" | "+what) }
 
 // snapshot of the bookkeeping, each side under its own locks (same order as the code takes them)
 func (sc *v16Scn) snapshot() *v16Obs {
@@ -267,7 +281,7 @@ func (sc *v16Scn) observe(explicit ...v16Ev) *v16Obs {
 		atomic.StoreInt32(&sc.mgrHRSeen, 1)
 	}
 	if !q.hsAll {
-		sc.fail("C16:session-in-listener-table-before-handshake-done", "a session without handshakeDone is in l.sessions.data")
+		sc.failLocked("C16:session-in-listener-table-before-handshake-done", "a session without handshakeDone is in l.sessions.data")
 	}
 	if q.LAck < 0 && (sc.last == nil || sc.last.LAck >= 0) {
 		sc.stats["ack_negative_seen"]++
@@ -454,7 +468,7 @@ func (sc *v16Scn) probe(k int, before *v16Obs) {
 	t := time.Now()
 	st, err := p.getOrOpenStream()
 	if time.Since(t) > time.Second {
-		sc.fail("C16:getstream-blocked", fmt.Sprintf("getOrOpenStream on pool %d took %v", k, time.Since(t)))
+		sc.failLocked("C16:getstream-blocked", fmt.Sprintf("getOrOpenStream on pool %d took %v", k, time.Since(t)))
 	}
 	if err == nil {
 		sc.sm.PutBack(st)
@@ -467,7 +481,7 @@ func (sc *v16Scn) probe(k int, before *v16Obs) {
 	if err != nil {
 		sc.stats["probe_errors"]++
 		if before.Pools[k][1] == 1 {
-			sc.fail("C16:getstream-failed-on-live-pool", fmt.Sprintf("pool %d: %v", k, err))
+			sc.failLocked("C16:getstream-failed-on-live-pool", fmt.Sprintf("pool %d: %v", k, err))
 		}
 	}
 	sc.hist = append(sc.hist, v16Ev{K: "gs", I: k, Ok: err == nil, T: sc.ms()})
@@ -657,8 +671,8 @@ const v16ExitBound = hotRestartCheckTimeout + 2500*time.Millisecond
 
 func (sc *v16Scn) checkExit(tag string) bool {
 	lms, mms := sc.waitExit(v16ExitBound)
-	sc.stats[tag+"_listener_exit_ms"] = lms
-	sc.stats[tag+"_manager_exit_ms"] = mms
+	sc.setStat(tag+"_listener_exit_ms", lms)
+	sc.setStat(tag+"_manager_exit_ms", mms)
 	ok := true
 	if lms < 0 {
 		sc.fail("C16:listener-stuck-in-hot-restart-state", fmt.Sprintf("%s: IsHotRestartDone still false %v after HotRestart", tag, v16ExitBound))
@@ -876,7 +890,7 @@ func v16DialFail(name string, n int, seed uint64, epoch uint64) v16Case {
 			sc.fail("C16:stale-epoch-changed-state", fmt.Sprintf("before %+v after %+v", *before, *after))
 		}
 	} else {
-		sc.notes["stale"] = "restart no longer in progress when the stale events were due; skipped"
+		sc.setNote("stale", "restart no longer in progress when the stale events were due; skipped")
 	}
 	sc.checkExit("first")
 	time.Sleep(150 * time.Millisecond)
@@ -973,7 +987,7 @@ func v16LateAck(name string, n int, seed uint64, epoch uint64) v16Case {
 	sc.injectAck(0, sc.sm.pools[0].Session(), epoch)
 	time.Sleep(300 * time.Millisecond)
 	o := sc.peek()
-	sc.stats["ack_count_after_late_ack"] = o.LAck
+	sc.setStat("ack_count_after_late_ack", o.LAck)
 	if o.LAck < 0 {
 		sc.fail("C16:late-ack-after-timeout-makes-ack-count-negative",
 			fmt.Sprintf("HotRestart(%d) timed out on the listener (resetState: count 0); the client's ack for epoch %d arrived afterwards; hotRestartAckCount=%d", epoch, epoch, o.LAck))
@@ -988,19 +1002,19 @@ func v16LateAck(name string, n int, seed uint64, epoch uint64) v16Case {
 	sc.checkExit("retry")
 	time.Sleep(200 * time.Millisecond)
 	o2 := sc.peek()
-	sc.stats["retry_listener_state"] = o2.LState
-	sc.stats["retry_ack_count"] = o2.LAck
+	sc.setStat("retry_listener_state", o2.LState)
+	sc.setStat("retry_ack_count", o2.LAck)
 	swapped := 0
 	for i := range o2.Pools {
 		if o2.Pools[i][0] == int64(epoch+1) {
 			swapped++
 		}
 	}
-	sc.stats["retry_pools_swapped"] = int64(swapped)
+	sc.setStat("retry_pools_swapped", int64(swapped))
 	if o.LAck < 0 && swapped == len(o2.Pools) && o2.LState != int64(hotRestartDoneState) {
-		sc.notes["next-restart"] = fmt.Sprintf("all %d pools moved to epoch %d and acknowledged, yet the listener ended in state %d (time-out) with count %d", swapped, epoch+1, o2.LState, o2.LAck)
+		sc.setNote("next-restart", fmt.Sprintf("all %d pools moved to epoch %d and acknowledged, yet the listener ended in state %d (time-out) with count %d", swapped, epoch+1, o2.LState, o2.LAck))
 	} else if o.LAck < 0 {
-		sc.notes["next-restart"] = fmt.Sprintf("listener state %d count %d, %d/%d pools swapped", o2.LState, o2.LAck, swapped, len(o2.Pools))
+		sc.setNote("next-restart", fmt.Sprintf("listener state %d count %d, %d/%d pools swapped", o2.LState, o2.LAck, swapped, len(o2.Pools)))
 	}
 	sc.closeOldAndSettle()
 	sc.stopAll()
@@ -1027,9 +1041,9 @@ func v16EarlyReturn(name string, seed uint64) v16Case {
 	sc.srv[0].handshakeDone = true
 	sc.oldL.mu.Unlock()
 	code2 := v16hrCode(sc.oldL.HotRestart(4243))
-	sc.notes["early-return"] = fmt.Sprintf("HotRestart with an un-handshaked session in the table: result class %d; IsHotRestartDone %v after %v; next HotRestart result class %d",
-		code1, done, hotRestartCheckTimeout+700*time.Millisecond, code2)
-	sc.stats["stuck"] = v16b(code1 == 2 && !done && code2 == 1)
+	sc.setNote("early-return", fmt.Sprintf("HotRestart with an un-handshaked session in the table: result class %d; IsHotRestartDone %v after %v; next HotRestart result class %d",
+		code1, done, hotRestartCheckTimeout+700*time.Millisecond, code2))
+	sc.setStat("stuck", v16b(code1 == 2 && !done && code2 == 1))
 	// unstick for clean-up
 	sc.oldL.resetState()
 	close(sc.stopSampler)
